@@ -39,15 +39,31 @@ def emissions(fn, prog):
         if isinstance(e, ast.Name) and len(local.get(e.id, [])) == 1:
             return local[e.id][0]
         return e
+    def zero_hash(e):
+        """e is sha(bytearray(E))[.digest()]: E, else None."""
+        if isinstance(e, ast.Call) and isinstance(e.func, ast.Attribute) and e.func.attr == "digest" and not e.args:
+            e = e.func.value
+        if isinstance(e, ast.Call) and isinstance(e.func, ast.Name) and e.func.id in ("sha1", "sha256") and len(e.args) == 1 and isinstance(e.args[0], ast.Call):
+            return amount_of(e.args[0])
+        return None
+    # a zero hash kept in a local that is yielded / returned later stands for its bytes where it is handed out, not where it is computed
+    handed = {}
+    for name, vals in local.items():
+        if len(vals) == 1 and zero_hash(vals[0]) is not None and any(isinstance(x, (ast.Yield, ast.Return)) and isinstance(x.value, ast.Name) and x.value.id == name for x in own_nodes(fn.node)):
+            handed[name] = vals[0]
     for n in own_nodes(fn.node):
         amt = None
         if isinstance(n, ast.Call) and isinstance(n.func, ast.Attribute) and n.func.attr == "extend" and n.args:
             amt = amount_of(resolve(n.args[0]))
         elif isinstance(n, ast.Yield) and n.value is not None:
             amt = amount_of(n.value)
+            if amt is None and isinstance(n.value, ast.Name) and n.value.id in handed:
+                amt = zero_hash(handed[n.value.id])
+        elif isinstance(n, ast.Return) and isinstance(n.value, ast.Name) and n.value.id in handed:
+            amt = zero_hash(handed[n.value.id])
         elif isinstance(n, ast.Call) and isinstance(n.func, ast.Name) and n.func.id in ("sha1", "sha256") and n.args:
             a = amount_of(n.args[0])
-            if a is not None and isinstance(n.args[0], ast.Call):
+            if a is not None and isinstance(n.args[0], ast.Call) and not any(v is n or (isinstance(v, ast.Call) and isinstance(v.func, ast.Attribute) and v.func.value is n) for v in handed.values()):
                 amt = a
         if amt is None:
             continue
@@ -176,12 +192,53 @@ def closed_form(ctx, fn, requested, consts):
     return None, "total %s with guarded parts" % total
 
 
+def _last_emission(ctx, fn, st):
+    """Nothing is executed after st but the end of the function (st closes the function body, possibly inside trailing ifs)."""
+    node, par = st, ctx.prog.parent.get(st)
+    while par is not None:
+        lst = None
+        for field in ("body", "orelse", "finalbody"):
+            l = getattr(par, field, None)
+            if isinstance(l, list) and node in l:
+                lst = l
+        if lst is None or lst[-1] is not node:
+            return False
+        if par is fn.node:
+            return True
+        if not isinstance(par, ast.If):
+            return False
+        node, par = par, ctx.prog.parent.get(par)
+    return False
+
+
+def _zero_standin(ctx):
+    """What HashChecker installs as `self.hasher` when the payload file is missing, other than the real file hasher: the
+    __next__ of that class, or that generator function; None when it cannot be identified."""
+    cls = ctx.prog.classes.get("torrentfile.recheck:HashChecker")
+    if cls is None:
+        return None
+    found = []
+    for m in cls.methods.values():
+        for n in own_nodes(m.node):
+            if isinstance(n, ast.Assign) and any(isinstance(t, ast.Attribute) and t.attr == "hasher" for t in n.targets) and isinstance(n.value, ast.Call):
+                for k in ctx.res.kinds(n.value.func, m):
+                    if k[0] == "class" and k[1].name != "FileHasher":
+                        nx = ctx.prog.find_method(k[1], "__next__")
+                        if nx is not None and nx not in found:
+                            found.append(nx)
+                    elif k[0] == "func" and k[1].is_generator and k[1] not in found:
+                        found.append(k[1])
+    return found[0] if len(found) == 1 else None
+
+
 def zero_fill_conservation(ctx, rid):
     consts = module_consts(ctx.prog.modules["torrentfile.recheck"])
     n = 0
     for q, req in (("torrentfile.recheck:FeedChecker._gen_padding", ("length", "read")), ("torrentfile.recheck:FeedChecker.extract", None),
                    ("torrentfile.recheck:HashChecker.Padder.__next__", None)):
         fn = ctx.prog.functions.get(q)
+        if fn is None and q.endswith("Padder.__next__"):
+            fn = _zero_standin(ctx)
         if fn is None:
             ctx.undecided(rid, None, "anchor vanished: %s" % q)
             continue
@@ -195,6 +252,8 @@ def zero_fill_conservation(ctx, rid):
                 n += 1
                 if p is not None:
                     ctx.holds(rid, fn, "%s bytes enter the stream and the progress counter advances by the same amount (%s)" % (norm(amt), norm(p)), st)
+                elif _last_emission(ctx, fn, st):
+                    ctx.holds(rid, fn, "%s bytes enter the stream as the last thing the function does: no later emission depends on a counter" % norm(amt), st)
                 else:
                     ctx.violated(rid, fn, "%s bytes enter the stream here but no progress counter advances by that amount in the same block, although the function accounts its other emissions: the stream gains or loses bytes and every later piece is shifted" % norm(amt), st)
             continue
